@@ -316,7 +316,7 @@ Definition mask_eqb (e : value -> value -> bool) : list value -> list value -> l
 (* a == b for two distinct objects.  Python evaluates the member comparisons of a frozenset lookup as
    stored == probe; the model evaluates probe == stored (== of two nodes of one class is symmetric;
    the correspondence compares a == b and b == a). *)
-Fixpoint eqb (S : schema) (hv : hvariant) (a b : value) {struct a} : bool :=
+Fixpoint node_eqb (S : schema) (hv : hvariant) (a b : value) {struct a} : bool :=
   match a, b with
   | VNone, VNone => true
   | VBool x, VBool y => Bool.eqb x y
@@ -327,17 +327,17 @@ Fixpoint eqb (S : schema) (hv : hvariant) (a b : value) {struct a} : bool :=
   | VStr x, VStr y => String.eqb x y
   | VEnumS e x, VEnumS e' y => String.eqb e e' && String.eqb x y
   | VEnumI e x, VEnumI e' y => String.eqb e e' && Z.eqb x y
-  | VTuple l, VTuple l' => list_eqb (fun x y => eqb S hv x y) l l'
-  | VList l, VList l' => list_eqb (fun x y => eqb S hv x y) l l'
-  | VSet l, VSet l' => list_eqb (fun x y => eqb S hv x y) l l'
-  | VDict ks vs, VDict ks' vs' => list_eqb String.eqb ks ks' && list_eqb (fun x y => eqb S hv x y) vs vs'
+  | VTuple l, VTuple l' => list_eqb (fun x y => node_eqb S hv x y) l l'
+  | VList l, VList l' => list_eqb (fun x y => node_eqb S hv x y) l l'
+  | VSet l, VSet l' => list_eqb (fun x y => node_eqb S hv x y) l l'
+  | VDict ks vs, VDict ks' vs' => list_eqb String.eqb ks ks' && list_eqb (fun x y => node_eqb S hv x y) vs vs'
   | VStruct c fs, VStruct c' fs' =>
       String.eqb c c' &&
       match lookup S c with
       | None => false
       | Some si =>
           match s_eq si with
-          | EqMask m => mask_eqb (fun x y => eqb S hv x y) fs fs' m
+          | EqMask m => mask_eqb (fun x y => node_eqb S hv x y) fs fs' m
           | EqIdent => false
           | EqSet =>
               match fs, fs' with
@@ -345,7 +345,7 @@ Fixpoint eqb (S : schema) (hv : hvariant) (a b : value) {struct a} : bool :=
                   (* set_richcompare: sizes, then every entry of the left set is looked up (hash, then ==)
                      in the right one *)
                   Nat.eqb (List.length la) (List.length lb) &&
-                  forallb (fun x => existsb (fun y => toks_eqb (hk S hv x) (hk S hv y) && eqb S hv x y) lb) la
+                  forallb (fun x => existsb (fun y => toks_eqb (hk S hv x) (hk S hv y) && node_eqb S hv x y) lb) la
               | _, _ => false
               end
           end
@@ -355,7 +355,7 @@ Fixpoint eqb (S : schema) (hv : hvariant) (a b : value) {struct a} : bool :=
 
 (* dict.fromkeys / frozenset insertion: y (already stored) and x are the same key *)
 Definition same (S : schema) (hv : hvariant) (y x : value) : bool :=
-  toks_eqb (hk S hv y) (hk S hv x) && eqb S hv y x.
+  toks_eqb (hk S hv y) (hk S hv x) && node_eqb S hv y x.
 
 Definition fdedup (S : schema) (hv : hvariant) (l : list value) : list value :=
   fold_left (fun acc x => if existsb (fun y => same S hv y x) acc then acc else acc ++ [x]) l [].
@@ -754,18 +754,19 @@ Definition schema_wf (S : schema) : bool :=
   forallb (fun cs => sinfo_wf S (fst cs) (snd cs)) (structs S).
 
 (* hashed fields are compared fields (needed for == => equal hashes) *)
-Fixpoint mask_le (h e : list bool) (n : nat) : bool :=
-  match n with
-  | O => true
-  | S n' =>
-      let hb := match h with b :: _ => b | [] => true end in
-      let eb := match e with b :: _ => b | [] => true end in
-      (negb hb || eb) && mask_le (tl h) (tl e) n'
+Fixpoint mask_le (h e : list bool) : bool :=
+  match e with
+  | [] => true                                   (* e: every remaining field is compared *)
+  | eb :: e' =>
+      match h with
+      | [] => eb && mask_le [] e'                (* h: every remaining field is hashed *)
+      | hb :: h' => (negb hb || eb) && mask_le h' e'
+      end
   end.
 
 Definition sinfo_hash_ok (si : sinfo) : bool :=
   match s_eq si, s_hash si with
-  | EqMask e, HashMask h => mask_le h e (List.length (s_fields si))
+  | EqMask e, HashMask h => mask_le h e
   | EqSet, HashSeq => true
   | EqIdent, _ => true
   | EqMask _, HashUnhashable => true
